@@ -8,6 +8,7 @@ export CARGO_NET_OFFLINE=true
 for b in $(sed -n 's/.*BIN=\([a-z0-9_]*\).*/\1/p' check | sort -u); do
   (cd harness && cargo build --release -p "$b" 2>&1 | tail -1)
 done
+(cd harness && cargo build --release -p asyncsim-nospawn 2>&1 | tail -1)
 # the repository's CLI, used by the process-level checks (C15, C33)
 env -u RUSTFLAGS cargo build --release --offline --manifest-path /repo/Cargo.toml --target-dir /verif/target/cli --bin wit-bindgen 2>&1 | tail -1
 echo "setup done"
